@@ -3,6 +3,8 @@ import SigHook.Model.Default
 import SigHook.Model.Origin
 import SigHook.Model.HalfLock
 import SigHook.Model.RegistryConc
+import SigHook.Model.Channel
+import SigHook.Model.ChannelGen
 import SigHook.Gen.Orderings
 import SigHook.Gen.Consts
 import SigHook.Model.Env
@@ -358,6 +360,132 @@ def rcStep (d : RcDrv) (line : String) : RcDrv × String :=
     | _, _ => (d, "bad-op")
   | _ => (d, "bad-op")
 
+/-! ### channel (L2) -/
+
+open Channel (genOrders chFile) in
+def locName : Channel.Loc → String | .empty => "empty" | .full => "full"
+
+def fmtChObs (isEnq : Bool) : Channel.Obs → String
+  | .load q v => s!"load {locName q} = {v.toNat} @{if isEnq then "enqueue" else "dequeue"}#1:{ordOf Channel.chFile (if isEnq then "enqueue" else "dequeue") 1}"
+  | .cas q e n ok seen =>
+    let fn := if isEnq then "enqueue" else "dequeue"
+    s!"cas_weak {locName q} {e.toNat}->{n.toNat} = {if ok then "ok" else "fail"} {seen.toNat} @{fn}#2:{ordOf Channel.chFile fn 2}"
+  | .cellWrite i => s!"cell cell{i}"
+  | .cellTake i => s!"cell cell{i}"
+
+structure ChDrv where
+  scripts : Array (List Channel.Cmd) := #[]
+  nested : List Nat := []
+
+def chAdd (d : ChDrv) (t : Nat) (c : Channel.Cmd) : ChDrv :=
+  let scripts := if d.scripts.size ≤ t then d.scripts ++ Array.replicate (t + 1 - d.scripts.size) [] else d.scripts
+  { d with scripts := scripts.modify t (· ++ [c]) }
+
+def parseEntry (e : String) : Option (Nat × Channel.Choice) :=
+  -- "<tid>", "<tid>s" (spurious failure), "<tid>r<k>" (read message k)
+  let digits := e.toList.takeWhile Char.isDigit
+  let rest := e.toList.dropWhile Char.isDigit
+  match (String.ofList digits).toNat? with
+  | none => none
+  | some t =>
+    match rest with
+    | [] => some (t, {})
+    | ['s'] => some (t, { spurious := true })
+    | 'r' :: ks => (String.ofList ks).toNat?.map (fun k => (t, { read := some k }))
+    | _ => none
+
+def chRun (d : ChDrv) (sched : List String) : List String := Id.run do
+  let mut s := Channel.Sys.init d.scripts.toList
+  let mut lines : Array String := #[]
+  for e in sched do
+    match parseEntry e with
+    | none => lines := lines.push s!"bad-schedule-entry {e}"
+    | some (t, c) =>
+      let th := s.threads[t]?.getD { script := [], pc := .idle, view := Channel.View.bot }
+      -- call marker at the first step of an operation
+      match th.pc, th.script with
+      | .idle, .send tag :: _ => lines := lines.push s!"t{t} call send {tag}"
+      | .idle, .recv :: _ => lines := lines.push s!"t{t} call recv"
+      | _, _ => pure ()
+      let isEnq := match th.pc with | .enqLoad .. | .enqCas .. => true | _ => false
+      let isRecv := match th.pc, th.script with
+        | .idle, .recv :: _ => true
+        | .deqCas _ none _, _ | .take _, _ => true
+        | .enqLoad .empty .., _ | .enqCas .empty .., _ => true
+        | _, _ => false
+      match Channel.step Channel.genOrders s t c with
+      | none =>
+        lines := lines.push s!"t{t} NOT-ENABLED"
+        break
+      | some (s', out) =>
+        lines := lines.push s!"t{t} {fmtChObs isEnq out.obs}"
+        -- what the step changed in the payload cells
+        for i in [0:Gen.SLOTS] do
+          let a := s.cells.getD i none
+          let b := s'.cells.getD i none
+          if a != b then
+            let f := fun (v : Option Nat) => match v with | some x => s!"some {x}" | none => "none"
+            lines := lines.push s!"t{t} cellmod cell{i + 1} {f a}->{f b}"
+        if out.race then lines := lines.push s!"t{t} RACE"
+        match out.panic with
+        | some m => lines := lines.push s!"t{t} PANIC {m}"
+        | none => pure ()
+        match out.dropped with
+        | some tg => lines := lines.push s!"t{t} drop {tg}"
+        | none => pure ()
+        match out.ret with
+        | some r =>
+          if isRecv then
+            match r with
+            | some tg =>
+              lines := lines.push s!"t{t} ret recv some {tg}"
+              lines := lines.push s!"t{t} drop {tg}"
+            | none => lines := lines.push s!"t{t} ret recv none"
+          else lines := lines.push s!"t{t} ret send"
+        | none => pure ()
+        s := s'
+  let left := (s.cells.filterMap id).mergeSort (· ≤ ·)
+  lines := lines.push s!"final-drop {fmtTags left}"
+  let done := (List.range s.threads.length).all (fun t =>
+    match s.threads[t]? with
+    | some th => (th.pc == .idle && th.script.isEmpty) ||
+        (d.nested.contains t && th.pc == .idle && th.script.length == (d.scripts[t]?.getD []).length)
+    | none => true)
+  lines := lines.push (if done then "END done" else "END unfinished")
+  return lines.toList
+
+def chStep (d : ChDrv) (line : String) : ChDrv × String :=
+  match line.trimAscii.toString.splitOn " " with
+  | "schedule" :: rest => (d, "\n".intercalate (chRun d rest))
+  | ["seed", _] | ["maxsteps", _] | ["spurious", _] => (d, "")
+  | ["---"] => ({}, "---")
+  | [t, "nested", _, "send", n] => match (t.drop 1).toString.toNat?, n.toNat? with
+    | some t, some n => ({ chAdd d t (.send n) with nested := t :: d.nested }, "")
+    | _, _ => (d, "bad-op")
+  | [t, "send", n] => match (t.drop 1).toString.toNat?, n.toNat? with
+    | some t, some n => (chAdd d t (.send n), "")
+    | _, _ => (d, "bad-op")
+  | [t, "recv"] => match (t.drop 1).toString.toNat? with
+    | some t => (chAdd d t .recv, "")
+    | none => (d, "bad-op")
+  | _ => (d, "bad-op")
+
+def fnv (acc : UInt64) (x : UInt64) : UInt64 := (acc ^^^ x) * 1099511628211
+
+def chTable : List String := Id.run do
+  let mut lines : Array String := #[]
+  for idx in [0:5] do
+    let mut acc : UInt64 := 1469598103934665603
+    for n in [0:65536] do
+      acc := fnv acc (Packed.get (BitVec.ofNat 16 n) idx).toNat.toUInt64
+    lines := lines.push s!"get-sum idx={idx} {acc.toNat}"
+    for v in [0:8] do
+      let mut acc2 : UInt64 := 1469598103934665603
+      for n in [0:65536] do
+        acc2 := fnv acc2 (Packed.set (BitVec.ofNat 16 n) idx (BitVec.ofNat 16 v)).toNat.toUInt64
+      lines := lines.push s!"set-sum idx={idx} v={v} {acc2.toNat}"
+  return lines.toList
+
 partial def loop {σ} (h : IO.FS.Stream) (out : IO.FS.Stream) (st : σ) (f : σ → String → σ × String) :
     IO Unit := do
   let line ← h.getLine
@@ -378,4 +506,6 @@ def main (args : List String) : IO UInt32 := do
   | ["origin"] => loop stdin stdout () originStep; return 0
   | ["halflock"] => loop stdin stdout ({} : HlDrv) hlStep; return 0
   | ["regconc"] => loop stdin stdout ({} : RcDrv) rcStep; return 0
+  | ["channel"] => loop stdin stdout ({} : ChDrv) chStep; return 0
+  | ["channel-table"] => (for l in chTable do stdout.putStrLn l); return 0
   | _ => IO.eprintln "usage: driver registry"; return 2
